@@ -4,9 +4,7 @@
 set -u
 prop=$1; file=$2; expr=$3
 d=$(mktemp -d /var/tmp/mut-XXXXXX)
-mkdir -p $d/repo && cp -r /repo/rodbus /repo/Cargo.lock /repo/Cargo.toml /repo/LICENSE.txt $d/repo/ 2>/dev/null
-mkdir -p $d/repo/ffi && cp -r /repo/ffi/rodbus-ffi $d/repo/ffi/ 2>/dev/null
-rm -rf $d/repo/rodbus/target
+mkdir -p $d/repo && rsync -a --exclude target --exclude .git /repo/ $d/repo/
 before=$(sha256sum $d/repo/$file | cut -d' ' -f1)
 sed -i -E "$expr" $d/repo/$file
 after=$(sha256sum $d/repo/$file | cut -d' ' -f1)
